@@ -43,8 +43,15 @@ func RunC19(t *testing.T, spec kernel.Spec) *kernel.Outcome {
 		// custom endpoints: relative paths and absolute URLs
 		eps := *op.DefaultEndpoints
 		var opts []op.Option
+		var disable []func() // applied once the router is known to be the LegacyServer
 		custom := func(name string, set func(e *op.Endpoint), with func(*op.Endpoint) op.Option) {
-			switch cfg.Int(4) {
+			switch cfg.Int(5) {
+			case 4:
+				// switched off on the LegacyServer (a nil entry of its Endpoints: "nil endpoints are disabled"); only
+				// endpoints that no other part of this check needs
+				if name == "introspect" || name == "revoke" || name == "end" || name == "device" {
+					disable = append(disable, func() { set(nil) })
+				}
 			case 0:
 				e := op.NewEndpoint("custom/" + name)
 				set(e)
@@ -77,7 +84,17 @@ func RunC19(t *testing.T, spec kernel.Spec) *kernel.Outcome {
 			// names the tenant in the Forwarded header
 			tenants = 2 + cfg.Int(2)
 		}
-		w, err := world.NewStd(o, tape, world.StdOptions{Router: spec.Params["router"], AllGrants: true, IssuerMode: c.mode, IssuerPath: c.path, Options: opts, Endpoints: &eps, Algs: []int{0, 4}, Tenants: tenants})
+		w, err := world.NewStd(o, tape, world.StdOptions{Router: spec.Params["router"], AllGrants: true, IssuerMode: c.mode, IssuerPath: c.path, Options: opts, Algs: []int{0, 4}, Tenants: tenants,
+			EndpointsFor: func(router string) *op.Endpoints {
+				if router == "B" {
+					for _, f := range disable {
+						f()
+						o.Probe("endpoints-disabled-on-the-server")
+					}
+					c.eps = eps
+				}
+				return &eps
+			}})
 		if err != nil {
 			o.Infra = "world: " + err.Error()
 			return
@@ -161,6 +178,14 @@ func (c *c19) checkIssuer(issuer string) {
 		if u, ok := c.abs[e.name]; ok {
 			if e.advertised != u {
 				c.viol("endpoint-url", "discovery/"+e.name, "endpoint %s configured with absolute URL %q is advertised as %q", e.name, u, e.advertised)
+			}
+			continue
+		}
+		if e.e == nil {
+			// disabled: no route; then nothing may be advertised for it
+			if e.advertised != "" {
+				r := c.post(e.advertised, url.Values{}, "", "")
+				c.viol("endpoint-not-served", "discovery/"+e.name+"/disabled", "endpoint %s is switched off on this server (no route) but advertised as %q (answers %d)", e.name, e.advertised, statusOf(r))
 			}
 			continue
 		}
